@@ -58,4 +58,11 @@ ParentsFirstDesign ==
   ~Rejected(reqs) =>
      LET m == Sorted(Unsorted(reqs)) IN
      \A i, j \in DOMAIN m : i < j => ~ProperPathPrefix(m[j], m[i])
+
+\* the destination of a user mount is the LOGICAL absolute path of the request (a symlink is followed for
+\* the source only), and reserved logical paths are rejected: nothing shadows the sandbox's own mounts
+ReservedUnshadowedDesign ==
+  ~Rejected(reqs) =>
+     LET m == Sorted(Unsorted(reqs)) IN
+     \A p \in ReservedS : Cardinality({i \in DOMAIN m : m[i] = p}) = 1
 =============================================================================
